@@ -120,8 +120,8 @@ func TestVerifC17Close(t *testing.T) {
 					sets = append(sets, s)
 				}
 			} else {
-				// every subset of the blocked calls, three times (different hook seeds, idle periods, client kinds)
-				for rep := 0; rep < 3; rep++ {
+				// every subset of the blocked calls, eight times (different hook seeds, idle periods, client kinds)
+				for rep := 0; rep < 8; rep++ {
 					for m := 1; m < 1<<len(c17Calls)-1; m++ {
 						var s []string
 						for i, c := range c17Calls {
@@ -148,7 +148,7 @@ func TestVerifC17Close(t *testing.T) {
 		}
 	}
 	// streams that complete at the instant the connection ends (see Churn)
-	for rep := 0; rep < l.Pick(8, 60); rep++ {
+	for rep := 0; rep < l.Pick(8, 200); rep++ {
 		for _, cause := range []string{"local-close", "remote-close", "transport-close", "transport-error", "stateless-reset"} {
 			for _, victim := range []string{"client", "server"} {
 				churn := []int{4900, 5000, 5000, 5100}[rng.IntN(4)] // local causes: when the FINs arrive
@@ -849,7 +849,7 @@ func TestVerifC17CloseRace(t *testing.T) {
 	defer l.Close()
 	var cases []c17Case
 	idx := 0
-	for rep := 0; rep < l.Pick(1, 12); rep++ {
+	for rep := 0; rep < l.Pick(1, 30); rep++ {
 		for _, cause := range []string{"local-close", "remote-close", "remote-close-lost", "idle-timeout", "stateless-reset", "transport-error", "transport-close"} {
 			for _, victim := range []string{"client", "server"} {
 				for si, s := range [][]string{c17Calls, {c17Calls[idx%len(c17Calls)]}, {"read", "write"}} {
